@@ -130,6 +130,18 @@ func TestClean(t *testing.T) {
 		core.Run(t, "cert/clean", func(c *core.Ctx) {
 			ch, valid := drawChain(c)
 			c.Event("chain of %d, valid=%v", len(ch), valid)
+			if valid && c.Chance("earlierFailedWrite", 1, 4) {
+				// history: an earlier upload of some chain broke part-way
+				ch0, _ := drawChain(c)
+				ch0[0].ocsp = []byte("o")
+				for i := 1; i < len(ch0); i++ {
+					ch0[i].ocsp = nil
+				}
+				full := refEncode(ch0)
+				fw := c.NewWriter("earlier", core.WriterPlan{FailAt: c.Int("earlier.failAt", 0, len(full)-1), Short: c.Bool("earlier.short")})
+				c.Guard("CertChain.Write", func() { toRepo(ch0).Write(fw) })
+				c.Probe("an earlier chain write failed part-way")
+			}
 			wp := core.WriterPlan{FailAt: -1, ReaderFrom: c.Bool("dst.readerFrom")}
 			w := c.NewWriter("certnet", wp)
 			var err error
